@@ -317,8 +317,11 @@ def run_case(fn, cc, inputs, consts, timeout_s=5, is_generator=False, mode="func
             return {"outcome": "pre-false", "detail": f"precondition not evaluable: {ex!r}"}
         if pre is None:
             return {"outcome": "pre-false"}
+        # CPU-time limit (robust on a loaded machine) with a ten times longer wall-clock backstop
         signal.signal(signal.SIGALRM, _alarm)
-        signal.setitimer(signal.ITIMER_REAL, timeout_s, 0.5)
+        signal.signal(signal.SIGPROF, _alarm)
+        signal.setitimer(signal.ITIMER_PROF, timeout_s, 0.5)
+        signal.setitimer(signal.ITIMER_REAL, 10 * timeout_s, 0.5)
         extra = {}
         try:
             call_args = dict(args)
@@ -339,12 +342,15 @@ def run_case(fn, cc, inputs, consts, timeout_s=5, is_generator=False, mode="func
                     extra.update(found=False, first=None)
                     r = None
             signal.setitimer(signal.ITIMER_REAL, 0)
+            signal.setitimer(signal.ITIMER_PROF, 0)
         except Timeout:
             signal.setitimer(signal.ITIMER_REAL, 0)
+            signal.setitimer(signal.ITIMER_PROF, 0)
             return {"outcome": "violation", "kind": "non-termination",
                     "detail": f"did not return within {timeout_s}s", "inputs": inputs, "consts": consts}
         except BaseException as ex:  # noqa: BLE001
             signal.setitimer(signal.ITIMER_REAL, 0)
+            signal.setitimer(signal.ITIMER_PROF, 0)
             ok, why = cc.check_raise(args, pre, ex, {"aes_calls": AesCounter.calls})
             if ok:
                 return {"outcome": "ok", "raised": type(ex).__name__}
@@ -361,6 +367,7 @@ def run_case(fn, cc, inputs, consts, timeout_s=5, is_generator=False, mode="func
                 "detail": why, "observed": to_jsonable(r), "inputs": inputs, "consts": consts}
     finally:
         signal.setitimer(signal.ITIMER_REAL, 0)
+        signal.setitimer(signal.ITIMER_PROF, 0)
         for cname, v in saved_consts.items():
             modn, attr = cname.rsplit(".", 1)
             setattr(importlib.import_module(modn), attr, v)
